@@ -1,5 +1,6 @@
 import GSProofs.Lemmas.MsgQueueNotes5
 import GSProofs.Lemmas.MsgQueueLive6
+import GSProofs.Lemmas.MsgQueueAtt6
 /-!
 # C16 — Every queued message is reported sent or failed exactly once
 
@@ -199,6 +200,162 @@ theorem eventually {pick : Pick} {peer mr mt mp : Nat} {σ : Nat → MQ.State} (
       | some k => obtain ⟨U, hm⟩ := hn'; exact mid (by rw [hpc]; rfl) hm
     | sending m k => rw [hpc] at hn'; obtain ⟨U, hm⟩ := hn'; exact mid (by rw [hpc]; rfl) hm
     | resetting m k => rw [hpc] at hn'; obtain ⟨U, hm⟩ := hn'; exact mid (by rw [hpc]; rfl) hm
+
+/-! ### who may end with the empty sequence
+
+`eventually` allows `seqOf u t = []` at the end.  The following theorem says exactly when that can
+happen to a subscriber that WAS attached to the queued message: only if an `Error` for one of its own
+requests has been delivered to it (the C15/C16 reading "discarded because another message of the same
+request failed", with the Error published to that same subscriber).  Assumption, recorded in
+checks/C16.json: every request id has ONE subscriber (`tx.sub = f tx.req` for every transaction; the
+response assembler binds the subscriber to the stream in `NewStream`).  Without it a subscriber
+attached to message k of request r can be dropped silently when message j<k of r, carrying a DIFFERENT
+subscriber for r, fails — `silent_drop_without_assumption`. -/
+
+/-- the system in which every transaction carries its request's own subscriber -/
+def LSysF (pick : Pick) (f : Req → Sub) : GS.Temporal.Sys MQ.State Act where
+  step s a :=
+    match a with
+    | .build tx => if tx.sub = f tx.req then (LSys pick).step s a else none
+    | a => (LSys pick).step s a
+
+/-- the three complete notification sequences -/
+def Complete (l : List Kind) : Prop :=
+  l = [.queued, .sent, .close] ∨ l = [.queued, .error, .close] ∨ l = [.error, .close]
+
+theorem lsysF_step {pick : Pick} {f : Req → Sub} {s s' : MQ.State} {a : Act} (h : (LSysF pick f).step s a = some s') :
+    (LSys pick).step s a = some s' ∧ (∀ tx, a = .build tx → tx.sub = f tx.req) := by
+  cases a with
+  | build tx =>
+    have h' : (if tx.sub = f tx.req then (LSys pick).step s (.build tx) else none) = some s' := h
+    split at h'
+    · next hf => exact ⟨h', fun tx' e => by cases e; exact hf⟩
+    · cases h'
+  | run pw => exact ⟨h, fun tx e => by cases e⟩
+  | ack ok => exact ⟨h, fun tx e => by cases e⟩
+  | wake w => exact ⟨h, fun tx e => by cases e⟩
+  | shutdown => exact ⟨h, fun tx e => by cases e⟩
+  | env op => exact ⟨h, fun tx e => by cases e⟩
+
+theorem lsys_step_eq {pick : Pick} {s s' : MQ.State} {a : Act} (h : (LSys pick).step s a = some s') :
+    s' = MQ.step pick s a := by
+  cases a with
+  | run pw =>
+    have h' : (if runEnabled s then some (s.run pick pw) else none) = some s' := h
+    split at h'
+    · exact (Option.some.inj h').symm
+    · exact absurd h' (by simp)
+  | ack ok =>
+    have h' : (if ackEnabled s then some (s.ack pick ok) else none) = some s' := h
+    split at h'
+    · exact (Option.some.inj h').symm
+    · exact absurd h' (by simp)
+  | build tx => have h' : some (MQ.step pick s (.build tx)) = some s' := h; exact (Option.some.inj h').symm
+  | wake w => have h' : some (MQ.step pick s (.wake w)) = some s' := h; exact (Option.some.inj h').symm
+  | shutdown => have h' : some (MQ.step pick s .shutdown) = some s' := h; exact (Option.some.inj h').symm
+  | env op => have h' : some (MQ.step pick s (.env op)) = some s' := h; exact (Option.some.inj h').symm
+
+open GS.Temporal in
+/-- **(S2) eventually, for attached subscribers** (partial as `eventually`; assumption: one subscriber
+    per request id).  On every weakly fair execution, a subscriber attached — through a request that
+    has content in it — to a message queued before the goroutine's final exit eventually has a
+    COMPLETE sequence for that message (`[Q,S,close]`, `[Q,E,close]` or `[E,close]`), or has been
+    delivered an `Error` for one of its own requests (whose stream is then closed and whose queued data
+    was discarded).  In particular it is never left without any notification at all. -/
+theorem eventually_attached {pick : Pick} {f : Req → Sub} {peer mr mt mp : Nat} {σ : Nat → MQ.State}
+    (h0 : σ 0 = init peer mr mt mp) (hex : Exec (LSysF pick f) σ) (hwf : WFAll (LSysF pick f) fairAct σ)
+    (u : Sub) (t : Nat) :
+    LeadsTo σ (fun s => Running s ∧ AttQ u t s) (fun s => Complete (seqOf u t s.log) ∨ ErrSeen f u s) := by
+  -- the execution is one of the unrestricted fair system
+  have hex' : Exec (LSys pick) σ := by
+    intro i
+    rcases hex i with h | ⟨a, h⟩
+    · exact Or.inl h
+    · exact Or.inr ⟨a, (lsysF_step h).1⟩
+  have hwf' : WFAll (LSys pick) fairAct σ := by
+    intro i hen
+    have hen' : ∀ j, i ≤ j → ∃ a, fairAct a ∧ (LSysF pick f).enabled a (σ j) := by
+      intro j hj
+      obtain ⟨a, hfa, he⟩ := hen j hj
+      refine ⟨a, hfa, ?_⟩
+      cases a with
+      | build tx => exact absurd hfa (fun x => x)
+      | run pw => exact he
+      | ack ok => exact he
+      | wake w => exact he
+      | shutdown => exact he
+      | env op => exact he
+    obtain ⟨j, hij, a, hfa, hs⟩ := hwf i hen'
+    exact ⟨j, hij, a, hfa, (lsysF_step hs).1⟩
+  -- invariants along the execution
+  have hinv : ∀ i, J (σ i) ∧ AI f (σ i) := by
+    intro i
+    induction i with
+    | zero => rw [h0]; exact ⟨init_J peer mr mt mp, init_AI f peer mr mt mp⟩
+    | succ i ih =>
+      rcases hex i with h | ⟨a, h⟩
+      · rw [h]; exact ih
+      · obtain ⟨h1, h2⟩ := lsysF_step h
+        rw [lsys_step_eq h1]
+        exact ⟨step_J pick ih.1 a, (step_stepOK pick f ih.1 ih.2 a h2).1⟩
+  have hW : ∀ i d, W f u t (σ i) → W f u t (σ (i + d)) := by
+    intro i d hw
+    induction d with
+    | zero => exact hw
+    | succ d ih =>
+      rcases hex (i + d) with h | ⟨a, h⟩
+      · have : σ (i + (d + 1)) = σ (i + d) := h
+        rw [this]; exact ih
+      · obtain ⟨h1, h2⟩ := lsysF_step h
+        have : σ (i + (d + 1)) = MQ.step pick (σ (i + d)) a := lsys_step_eq h1
+        rw [this]
+        exact (step_stepOK pick f (hinv (i + d)).1 (hinv (i + d)).2 a h2).2 u t ih
+  intro i ⟨hr, hatt⟩
+  have hpend : Pend t (σ i) := by
+    obtain ⟨b, hb, ha⟩ := hatt
+    exact Or.inl ⟨b, hb, ha.1, ha.nonempty⟩
+  obtain ⟨j, hij, hq, hdone⟩ := eventually h0 hex' hwf' t i ⟨hr, hpend⟩
+  refine ⟨j, hij, ?_⟩
+  obtain ⟨d, rfl⟩ := Nat.exists_eq_add_of_le hij
+  rcases hW i d (Or.inl hatt) with ⟨b, hb, ha⟩ | hne | herr
+  · exact absurd (Or.inl ⟨b, hb, ha.1, ha.nonempty⟩) hq
+  · left
+    rcases hdone u with h | h | h | h
+    · exact absurd h hne
+    · exact Or.inl h
+    · exact Or.inr (Or.inl h)
+    · exact Or.inr (Or.inr h)
+  · exact Or.inr herr
+
+/-- without the assumption a subscriber can be dropped silently (the auditor's witness): request 0
+    carries subscriber 0 in message 0 and subscriber 7 in message 1; message 0 fails; message 1 is
+    discarded; subscriber 7 is told nothing, not even an Error. -/
+theorem silent_drop_without_assumption :
+    ∃ s, Reachable pickMin 0 1 (2^30) (2^30) s ∧ s.pc = .idle ∧ s.builders = [] ∧
+      seqOf 7 1 s.log = [] ∧ (∀ t, seqOf 7 t s.log = []) ∧ seqOf 0 0 s.log = [.queued, .error, .close] := by
+  refine ⟨runActs pickMin (init 0 1 (2^30) (2^30))
+      [.build ⟨.response, 0, 0, [.block 1 600000 true]⟩, .run true, .ack true,
+       .build ⟨.response, 0, 7, [.block 2 600000 true]⟩, .ack false, .ack true, .ack true],
+    ⟨_, rfl⟩, by decide, by decide, by decide, ?_, by decide⟩
+  intro t
+  have h : ∀ l : List MQ.Event, (l.all fun e => match e with | .notify a _ _ => a != 7 | _ => true) = true →
+      seqOf 7 t l = [] := by
+    intro l
+    induction l with
+    | nil => intro _; rfl
+    | cons e r ih =>
+      intro hl
+      simp only [List.all_cons, Bool.and_eq_true] at hl
+      have hr := ih hl.2
+      cases e with
+      | notify a b c =>
+        simp only [seqOf]
+        have ha : a ≠ 7 := by simpa using hl.1
+        have : ¬ (a = 7 ∧ b = t) := fun hh => ha hh.1
+        rw [if_neg this]; exact hr
+      | _ => simpa [seqOf] using hr
+  apply h
+  decide
 
 /-- non-vacuity of `eventually`: a reachable state with message 1 queued with content behind message 0
     in flight -/
